@@ -4,6 +4,7 @@ REGISTRY = {
     "C01": "harness.c01_reliable",
     "C02": "harness.c02_drain",
     "C05": "harness.c05_nocrash",
+    "C06": "harness.c06_partial",
     "C07": "harness.c07_rtp",
     "C08": "harness.c08_sctp",
     "C10": "harness.c10_jitter",
